@@ -4,8 +4,8 @@ use super::c09::*;
 use crate::engine::*;
 use crate::tape::Tape;
 
-pub const QUICK_CASES: u64 = 300_000;
-pub const THOROUGH_CASES: u64 = 10_000_000;
+pub const QUICK_CASES: u64 = 3_000_000;
+pub const THOROUGH_CASES: u64 = 30_000_000;
 
 // ------------------------------------------------------------------------------------------------
 // byte strings
